@@ -119,7 +119,7 @@ class Harness:
                 fails = []
         except _Abort as a:
             fails = a.fails
-        if fails:
+        if fails and not self.opts.get('keep_going'):
             self.dead = True
         return fails
 
